@@ -191,6 +191,14 @@ def generate(rng, tier):
         ops.append({"op": "exec", "lang": "en", "text": t})
         checks.append(("abs", len(ops) - 1, v))
     cases.append({"ops": ops, "meta": {"kind": "alias-word-in-pattern", "checks": checks, "interesting": True, "pair": None}})
+    bonus = {"op": "add_rule", "lang": "en", "patterns": ["{NUMBER_GROUP:amount} bonus", "{NUMBER_OR_MONEY:amount} reward"],
+             "name": "bonus", "kind": "const_number", "k": str(bits(5.0)), "cur": ""}
+    ops = [bonus]
+    checks = [("ret", 0, True)]
+    for t in ("10 bonus", "10% bonus", "%25 bonus", "10 reward", "10 usd reward"):
+        ops.append({"op": "exec", "lang": "en", "text": t})
+        checks.append(("abs", len(ops) - 1, 5.0))
+    cases.append({"ops": ops, "meta": {"kind": "type-group-field", "checks": checks, "interesting": True, "pair": None}})
     # the order of add_rule and add_dynamic_type(_item) is irrelevant: a rule whose field names a family that is created
     # later fires once the family exists
     def gauge(rule_first):
